@@ -224,7 +224,11 @@ func genWorld(seed uint64, tier string, mode string) *Script {
 			a.Unknown = append(a.Unknown, UnknownAttr{Flags: 0x80, Type: 201, Hex: fmt.Sprintf("%04x", g.n(65536))})
 		}
 		if o.PadAttrs && g.p(50) {
-			a.PadComms = pick(g, []int{10, 60, 61, 62, 63, 64, 200, 900})
+			a.PadComms = pick(g, []int{10, 60, 61, 62, 63, 64, 200, 900, 990, 1000})
+			if c.ExtMsg && g.p(50) {
+				// larger than a 4096-octet session can carry: must be skipped towards such peers
+				a.PadComms = pick(g, []int{1003, 1005, 1007, 1009, 1011, 1015, 1020, 3000, 9000})
+			}
 		}
 		return a
 	}
@@ -326,7 +330,7 @@ func genWorld(seed uint64, tier string, mode string) *Script {
 			c := &sc.Peers[g.n(np)]
 			if !down[c.Idx] {
 				serial++
-				p.Ops = append(p.Ops, Op{Kind: "burst", Actor: c.Idx, Count: pick(g, []int{50, 300, 1200}), N: g.n(200), Attrs: mkAttrs(c), Tag: mkTag(c.Idx, serial)})
+				p.Ops = append(p.Ops, Op{Kind: "burst", Actor: c.Idx, Count: pick(g, []int{50, 300, 980, 1000, 1010, 1015, 1020, 1200, 2100}), N: g.n(200), Attrs: mkAttrs(c), Tag: mkTag(c.Idx, serial)})
 			}
 		}
 		p.Settle = pick(g, []int{8, 8, 12, 20})
@@ -785,6 +789,42 @@ func (w *simWorld) checkPeerView(p *simPeer, fam wFamily, table map[string][]*ri
 			}
 		}
 		got := byPrefix[prefix]
+		// C11: a route whose single-route UPDATE exceeds the session's maximum cannot be sent; it is
+		// skipped (the peer then holds nothing, or what it was told before) and nothing else suffers
+		{
+			var keep []elig
+			for _, e := range el {
+				min := 1 << 30
+				for _, a := range e.alts {
+					if l := updateWireLen(a, fam, p.dec.AS2, addpath); l < min {
+						min = l
+					}
+				}
+				if min == p.maxLen && fam == famV4 {
+					// exactly at the limit: known finding KF3 (worst-case NLRI arithmetic in the packer)
+					if len(byPrefix[prefix]) == 0 {
+						w.violate("C11", "route-at-size-limit-dropped", subj(prefix), fmt.Sprintf("a route whose single-route UPDATE is exactly %d octets (the session maximum) was not advertised", min))
+					}
+					w.probe("route_exactly_at_limit")
+					continue
+				}
+				if min > p.maxLen {
+					w.probe("oversize_route_for_session")
+					if len(byPrefix[prefix]) == 0 {
+						w.probe("oversize_route_skipped")
+					}
+					continue
+				}
+				keep = append(keep, e)
+			}
+			if len(keep) != len(el) {
+				if !addpath {
+					// best path unsendable: no expectation for this prefix
+					continue
+				}
+				el = keep
+			}
+		}
 		if !addpath {
 			if len(el) == 0 {
 				if len(got) > 0 {
